@@ -184,6 +184,12 @@ V2_Contained(L) ==
         /\ ReplyOf(L).n = <<>>
         /\ \A q \in (k + 1)..Len(L) : ~(L[q].e = "utter" /\ L[q].n # <<>>)
         /\ (L[k].s = "in" => \A q \in (k + 1)..Len(L) : ~IsLlm(L[q]))
+(* rails that decide synchronously from the text leave no invocation events: only the outcome is judged.
+   blocked = some output rail of the turn rejects the generated text *)
+JudgeTurn2Sync(L, blocked) ==
+  [gate |-> TRUE, order |-> TRUE, reject |-> TRUE, rewrite |-> TRUE, ogate |-> TRUE,
+   oreject   |-> (blocked => (ReplyOf(L).n = <<>> /\ \A q \in 1..Len(L) : ~(L[q].e = "utter" /\ L[q].n # <<>>))),
+   ochecked  |-> TRUE, contained |-> TRUE, completes |-> TurnCompletes(L)]
 JudgeTurn2(L, nin, nout, tn) ==
   [gate      |-> V2_Gate(L, nin),
    order     |-> V2_Order(L, nin),
